@@ -186,9 +186,11 @@ class Adapter(object):
       sig["where"] = obs.get("where", "?") if isinstance(obs, dict) else "?"
       return sig
     if a == "Layer":
-      l = stack[st["args"]["i"] - 1]
+      i = st["args"]["i"]
+      l = stack[i - 1]
       sig["k"] = l["k"]
       sig["v"] = l["v"]
+      sig["under"] = "%s.%s" % (stack[i - 2]["k"], stack[i - 2]["v"]) if i > 1 else "-"
       sig["expected_parsed"] = st["exp"]["parsed"]
       sig["whole"] = A.get("cut", 0) >= A.get("total", 0) - A.get("pad", 0)
       if isinstance(obs, dict) and obs.get("parsed") and st["exp"]["parsed"]:
